@@ -5,6 +5,7 @@ package main
 import (
 	"fmt"
 	"go/ast"
+	"go/constant"
 	"go/token"
 	"go/types"
 	"strings"
@@ -44,6 +45,7 @@ func checkC10(ctx *Ctx, r *Report) {
 	c12CollectionDefaultsRead(ctx, r)
 	c12CueNestedEmptyCollections(ctx, r)
 	c10FourthHunt(ctx, r)
+	c10FifthHunt(ctx, r)
 }
 
 func c10DefaultCarried(ctx *Ctx, r *Report) map[*types.Func]bool {
@@ -146,6 +148,26 @@ func c10DefaultCarried(ctx *Ctx, r *Report) map[*types.Func]bool {
 				var ctor ast.Expr
 				if id, ok := res.(*ast.Ident); ok {
 					retObj = objOf(info, id)
+					if retObj == param {
+						// the parameter itself, after it was given another value (`def = branches[1]`): what is
+						// returned is that value, not the visited type
+						ast.Inspect(fd.Body, func(m ast.Node) bool {
+							as, ok := m.(*ast.AssignStmt)
+							if !ok || as.Tok != token.ASSIGN || len(as.Lhs) != 1 || len(as.Rhs) != 1 || !isIdentOf(info, as.Lhs[0], param) {
+								return true
+							}
+							if _, isIdent := as.Lhs[0].(*ast.Ident); !isIdent || !sameBranch(parents, as, rs) {
+								return true
+							}
+							if c, isCall := ast.Unparen(as.Rhs[0]).(*ast.CallExpr); isCall && isCopyCall(info, c) {
+								return true
+							}
+							if namedOf(info.TypeOf(as.Rhs[0])) == typeT && (isFreshType(as.Rhs[0]) || derivesFromParam(info, as.Rhs[0], param, fd.Body)) {
+								ctor = as.Rhs[0]
+							}
+							return true
+						})
+					}
 					if init, ok := defs[retObj]; ok && isFreshType(init) {
 						ctor = init
 					} else if ok && retObj != param && namedOf(info.TypeOf(init)) == typeT && derivesFromParam(info, init, param, fd.Body) {
@@ -910,6 +932,21 @@ func c10ConstantFromConcrete(ctx *Ctx, r *Report) {
 					guard := ""
 					for _, c := range enclosingConds(parents, as) {
 						tested := isConcreteCallOn(c.stmt.Cond)
+						if tested == nil && !c.inElse {
+							// one of the conjuncts of the condition (`d == nil && X.Scalar.IsConcrete()`)
+							var conjuncts func(e ast.Expr)
+							conjuncts = func(e ast.Expr) {
+								if be, ok := ast.Unparen(e).(*ast.BinaryExpr); ok && be.Op == token.LAND {
+									conjuncts(be.X)
+									conjuncts(be.Y)
+									return
+								}
+								if t := isConcreteCallOn(e); t != nil && sameAccessPath(info, t, owner) {
+									tested = t
+								}
+							}
+							conjuncts(c.stmt.Cond)
+						}
 						if tested == nil {
 							continue
 						}
@@ -1988,4 +2025,90 @@ func c10FourthHunt(ctx *Ctx, r *Report) {
 	}
 	r.Count("hunted clauses of defaults (4th hunt)", n)
 	r.Floor("hunted clauses of defaults (4th hunt)", 2)
+}
+
+// c10FifthHunt — fifth hunt:
+//   - Go: formatScalar prints a list whose item type nothing declares (the default of an untyped field). It can not
+//     assume strings: its list branch has a path that writes a list of `any`;
+//   - OpenAPI: every float64 → int64 conversion of the front-end tests the int64 range (shared with C09);
+//   - (finding) kin-openapi hands every number over as a float64: an integer default beyond 2^53 is rounded before cog
+//     sees it. typedValue would need the digits of the document (a json.Number case, as the JSON Schema front-end has).
+func c10FifthHunt(ctx *Ctx, r *Report) {
+	n := 0
+	// (a)
+	if fn := ctx.LookupFunc("internal/jennies/golang", "formatScalar"); fn == nil {
+		r.Undecided("anchor lost: golang.formatScalar")
+	} else if fd, p := ctx.DeclOf(fn); fd != nil {
+		info := p.TypesInfo
+		lists := 0
+		ast.Inspect(fd.Body, func(m ast.Node) bool {
+			is, ok := m.(*ast.IfStmt)
+			if !ok || is.Init == nil {
+				return true
+			}
+			// `if list, ok := val.([]any); ok {`
+			as, ok := is.Init.(*ast.AssignStmt)
+			if !ok || len(as.Rhs) != 1 {
+				return true
+			}
+			ta, ok := ast.Unparen(as.Rhs[0]).(*ast.TypeAssertExpr)
+			if !ok || ta.Type == nil {
+				return true
+			}
+			if _, isSlice := info.TypeOf(ta.Type).Underlying().(*types.Slice); !isSlice {
+				return true
+			}
+			lists++
+			var formats []string
+			ast.Inspect(is.Body, func(k ast.Node) bool {
+				if rs, ok := k.(*ast.ReturnStmt); ok && len(rs.Results) == 1 {
+					if c, ok := ast.Unparen(rs.Results[0]).(*ast.CallExpr); ok && len(c.Args) > 0 {
+						if tv, ok := info.Types[c.Args[0]]; ok && tv.Value != nil && tv.Value.Kind() == constant.String {
+							formats = append(formats, constant.StringVal(tv.Value))
+						}
+					}
+				}
+				return true
+			})
+			anyList := false
+			for _, f := range formats {
+				if strings.HasPrefix(f, "[]any{") || strings.HasPrefix(f, "[]interface{}{") || strings.HasPrefix(f, "[]interface {}{") {
+					anyList = true
+				}
+			}
+			n++
+			r.Check(anyList, "kinds/go-untyped-list-default", "golang.formatScalar writes a list of undeclared item type", is.Pos(), "one of its paths writes a list of any",
+				fmt.Sprintf("formatScalar writes every list as %v: `value: _ | *[1, 2]` (or \"value\": {\"default\": [1, 2]}) gives `Value: []string{1, 2}` in NewRoot() — cannot use 1 as string value, the package does not compile, while Python yields [1, 2]", formats))
+			return true
+		})
+		if lists == 0 {
+			r.Undecided("anchor changed: golang.formatScalar has no list branch")
+		}
+	}
+	// (b)
+	n += c09OpenAPIIntegerConversions(ctx, r)
+	// (c)
+	if fn := ctx.LookupFunc("internal/openapi", "typedValue"); fn == nil {
+		r.Undecided("anchor lost: openapi.typedValue")
+	} else if fd, p := ctx.DeclOf(fn); fd != nil {
+		info := p.TypesInfo
+		exact := false
+		ast.Inspect(fd.Body, func(m ast.Node) bool {
+			cc, ok := m.(*ast.CaseClause)
+			if !ok {
+				return true
+			}
+			for _, e := range cc.List {
+				if t := info.TypeOf(e); t != nil && (namedName(t) == "Number" || strings.HasSuffix(t.String(), "big.Int") || strings.HasSuffix(t.String(), "big.Rat")) {
+					exact = true
+				}
+			}
+			return true
+		})
+		n++
+		r.Check(exact, "frontier/openapi-integers-read-exactly", "openapi.typedValue reads the numbers of defaults and enum values", fd.Pos(), "from the digits of the document (json.Number / big)",
+			"typedValue only knows the float64 kin-openapi decoded: `type: integer, format: int64, default: 9007199254740993` reaches cog as 9007199254740992 — NewRoot() and Root() agree on a value that is not the declared default, while the CUE and JSON Schema inputs give the exact one")
+	}
+	r.Count("hunted clauses of the defaults (5th hunt)", n)
+	r.Floor("hunted clauses of the defaults (5th hunt)", 3)
 }
